@@ -92,9 +92,32 @@ func (pac *PACType) Unmarshal(b []byte) (err error) {
 // ProcessPACInfoBuffers processes the PAC Info Buffers.
 // https://msdn.microsoft.com/en-us/library/cc237954.aspx
 func (pac *PACType) ProcessPACInfoBuffers(key types.EncryptionKey, l *log.Logger) error {
+	// The two signature buffers have a fixed layout. They are decoded first and the server signature is verified over the
+	// whole PAC before any other buffer is decoded: the others are NDR structures, and what has not been signed by the KDC
+	// must not reach their decoder.
+	if err := pac.processInfoBuffers(l, true); err != nil {
+		return err
+	}
+	if ok, err := pac.verifyServerChecksum(key); !ok {
+		return err
+	}
+	if err := pac.processInfoBuffers(l, false); err != nil {
+		return err
+	}
+	if ok, err := pac.verify(key); !ok {
+		return err
+	}
+	return nil
+}
+
+// processInfoBuffers decodes either the signature buffers (signatures true) or all the other buffers of the PAC.
+func (pac *PACType) processInfoBuffers(l *log.Logger, signatures bool) error {
 	for _, buf := range pac.Buffers {
 		if buf.Offset > uint64(len(pac.Data)) || uint64(buf.CBBufferSize) > uint64(len(pac.Data))-buf.Offset {
 			return fmt.Errorf("PAC info buffer of type %d (offset %d, size %d) lies outside the %d bytes of the PAC", buf.ULType, buf.Offset, buf.CBBufferSize, len(pac.Data))
+		}
+		if signatures != (buf.ULType == infoTypePACServerSignatureData || buf.ULType == infoTypePACKDCSignatureData) {
+			continue
 		}
 		p := make([]byte, buf.CBBufferSize, buf.CBBufferSize)
 		copy(p, pac.Data[int(buf.Offset):int(buf.Offset)+int(buf.CBBufferSize)])
@@ -232,11 +255,6 @@ func (pac *PACType) ProcessPACInfoBuffers(key types.EncryptionKey, l *log.Logger
 			pac.DeviceClaimsInfo = &k
 		}
 	}
-
-	if ok, err := pac.verify(key); !ok {
-		return err
-	}
-
 	return nil
 }
 
@@ -244,14 +262,19 @@ func (pac *PACType) verify(key types.EncryptionKey) (bool, error) {
 	if pac.KerbValidationInfo == nil {
 		return false, errors.New("PAC Info Buffers does not contain a KerbValidationInfo")
 	}
+	if pac.ClientInfo == nil {
+		return false, errors.New("PAC Info Buffers does not contain a ClientInfo")
+	}
+	return pac.verifyServerChecksum(key)
+}
+
+// verifyServerChecksum verifies the server signature over the PAC with the signature values zeroed.
+func (pac *PACType) verifyServerChecksum(key types.EncryptionKey) (bool, error) {
 	if pac.ServerChecksum == nil {
 		return false, errors.New("PAC Info Buffers does not contain a ServerChecksum")
 	}
 	if pac.KDCChecksum == nil {
 		return false, errors.New("PAC Info Buffers does not contain a KDCChecksum")
-	}
-	if pac.ClientInfo == nil {
-		return false, errors.New("PAC Info Buffers does not contain a ClientInfo")
 	}
 	etype, err := crypto.GetChksumEtype(int32(pac.ServerChecksum.SignatureType))
 	if err != nil {
